@@ -47,6 +47,24 @@ CLAIMS["C17"] = dict(
         "(FileView) and flux adapters likewise (obligations listed in evidence).",
    note="as C01", ref="5 C17", tech=TECH_CXX)
 
+CLAIMS["C04"] = dict(
+   text="FileView::read_block (the single place where a surface is mapped onto a container file) is decided for every skip/leave/total and every "
+        "sector number, per constant value of take produced by the container constructors; FilePresentedBlockwise maps sector n to byte offset 256n "
+        "and refuses partial sectors; container constructors (SSD/DSD/MMB view parameters) are separate obligations listed in evidence.",
+   note="symbolic take stalls every back end (SAT, z3, cvc5 bv-as-int; recorded in DESIGN), so take ranges over the 13 values the constructors can produce",
+   ref="5 C04", tech=TECH_CXX)
+CLAIMS["C06"] = dict(
+   text="Gate query: the real FM/MFM decoder glue with its bit-level helpers replaced by contract stubs yields exactly the records whose ID field and "
+        "data field both passed the CRC check and whose mark is a data mark, with the address of the CRC-checked ID that precedes them, for every "
+        "schedule of helper answers within the bound; the CRC routine is CRC-16/CCITT (one-step lemma for every state and byte).",
+   note="assume/guarantee: helper contracts (scan_for returns a position >= start, copy appends n bytes and advances 16n bits) are checked on the real helpers by separate kernels; "
+        "bounded by the number of helper calls per track and sector sizes 128/256",
+   ref="5 C06", tech=TECH_CXX)
+CLAIMS["C16"] = dict(
+   text="Drive-number arithmetic for all 2^32 numbers and the slot-fitting predicate for every occupancy of drives 0..23 and images of 1..3 surfaces; "
+        "allocation histories on the real StorageConfiguration are a separate obligation.",
+   note="as C01", ref="5 C16", tech=TECH_CXX)
+
 NOT_APPLICABLE = {}
 
 LEVEL = "model_checking"
